@@ -24,7 +24,7 @@ from ..stubs import (SIGMA_2C, SIGMA_FULL, SymRng, lazy_state, pre_held,
                      same_object)
 from ..symx import sym_and
 from .c01 import LOCAL_REWARDS, LOCAL_TERMS, make_env, ALL_TYPES, trivial_termination
-from .common import ACTIONS, CHAINS, SINGLE, shapes, transition
+from .common import ACTIONS, CHAINS, SINGLE, held_touched, post_cells, shapes, transition
 
 PROPERTY = 'C03'
 LEVEL = 'other'
@@ -34,14 +34,14 @@ SCOPE = ('functional_step / functional_observation / every local reward and term
          'question equally after a symbolic choice of intervening calls that evict / collide, and equal a fresh uncached computation')
 BOUNDS = {
     'quick': dict(step='every built-in transition function and shipped chain, shapes 1x1..2x2, 1x3, 3x1, 33-object alphabet incl. nested boxes, any held item',
-                  observation='4 observation functions, worlds 2x2, views 2x3 / 3x3, 6-object alphabet', rewards='7 local rewards, 4 terminations on shapes <=2x2',
+                  observation='4 observation functions, worlds 2x2, views 2x3 / 3x3, 6-object alphabet', rewards='7 local rewards, 4 terminations on shapes <=2x2; 5 scanning rewards on 2x2 under their preconditions',
                   copy='shapes 1x1, 1x2 over a 9-object alphabet (2x2: 5 objects) with Box(Box(Floor)), Box(Key), doors of 3 statuses; held item of the same alphabet',
                   history='question = getting_closer_shortest_path / raytracing on 3x3; intervening menu: 0..12 other layouts (>= 11 evict the cache), same layout with '
                           'another source, other ray origins and areas; symbolic choice of the sequence (length <= 2 from the menu; the eviction block asks 12 further layouts)'),
     'thorough': dict(step='shapes up to 3x3, 41-object alphabet', observation='worlds up to 2x3', rewards='shapes <=3x3', copy='plus 2x3', history='sequence length <= 4'),
 }
 OUTSIDE = ('aliasing among cells the path never read rests on the LazyRows copy contract (pickle of plain lists is a deep copy): concrete Python, not a solver verdict; '
-           'scanning rewards purity is covered on concrete-structured states only')
+           'scanning rewards are covered on 2x2 (2x3) structured states only')
 ASSUMPTIONS = ['immutable values (Position, enum members, numbers) may be shared', 'observations may (and do) reference the state\'s cell objects; only containers must be fresh']
 STUBS = ['LazyRows (records writes)', 'LazyAgent', 'SymRng']
 TIME_LIMIT = {'quick': 300, 'thorough': 1800}
@@ -58,9 +58,9 @@ def reach(o, acc):
 
 def mutable_ids(st):
     acc = {id(st): st, id(st.grid): st.grid, id(st.grid.objects): st.grid.objects, id(st.agent): st.agent, id(st.agent.transform): st.agent.transform}
-    for k, o in st.grid.objects.cells.items():
+    for k, o in post_cells(st).items():
         reach(o, acc)
-    if st.agent.held_touched():
+    if held_touched(st):
         g = st.agent.grid_object
         if not isinstance(g, NoneGridObject):
             reach(g, acc)
@@ -92,10 +92,19 @@ def mk_step(fname, H, W, sigma):
         sx.cover('step')
         input_untouched(sx, state, world, pose0, 'step')
         a_ids, b_ids = mutable_ids(state), mutable_ids(nxt)
+        inst = []
+        for o in post_cells(nxt).values():
+            while True:
+                if isinstance(o, (Door, Box)):  # objects with mutable state; sharing stateless ones is harmless
+                    inst.append(id(o))
+                if not isinstance(o, Box):
+                    break
+                o = o.content
+        sx.check(len(set(inst)) == len(inst), 'stateful-cells-of-the-next-state-are-distinct-instances')
         shared = set(a_ids) & set(b_ids)
         sx.check(not shared, 'next-state-shares-no-mutable-object-with-input', repr([a_ids[i] for i in shared][:3]))
         # changing the next state afterwards cannot affect the input (and vice versa): spot-check on doors
-        for k, o in nxt.grid.objects.cells.items():
+        for k, o in post_cells(nxt).items():
             if isinstance(o, Door) and k in state.grid.objects.cells:
                 old = state.grid.objects.cells[k].state
                 o.state = Door.Status.OPEN if old is not Door.Status.OPEN else Door.Status.CLOSED
@@ -130,15 +139,46 @@ def mk_reward(name, f, H, W, sigma, is_term):
         a = sx.choice('a', ACTIONS)
         pose0 = (state.agent.position.y, state.agent.position.x, state.agent.orientation)
         nxt = transition_with_copy(transition('chain[move,turn,actuate_door,actuate_box,pickndrop]'), state, a)
-        before = {k: repr(o) for k, o in nxt.grid.objects.cells.items()}
+        before = {k: repr(o) for k, o in post_cells(nxt).items()}
         npose = (nxt.agent.position.y, nxt.agent.position.x, nxt.agent.orientation)
-        nwrites = list(nxt.grid.objects.writes)
+        nwrites = list(getattr(nxt.grid.objects, 'writes', []))
         f(state, a, nxt)
         sx.cover('component')
         input_untouched(sx, state, world, pose0, name + '-state')
-        sx.check(nxt.grid.objects.writes == nwrites, name + '-no-write-into-next-state')
-        sx.check(all(repr(nxt.grid.objects.cells[k]) == v for k, v in before.items()), name + '-next-state-cells-unchanged')
+        sx.check(getattr(nxt.grid.objects, 'writes', []) == nwrites, name + '-no-write-into-next-state')
+        sx.check(all(repr(post_cells(nxt)[k]) == v for k, v in before.items()), name + '-next-state-cells-unchanged')
         sx.check(sym_and(nxt.agent.position.y == npose[0], nxt.agent.position.x == npose[1]) and nxt.agent.orientation is npose[2], name + '-next-pose-unchanged')
+    return h
+
+
+def mk_scanning_reward(kind, H, W):
+    """the scanning rewards (distance shaping, memory) only read: no write into either state, cells keep their content"""
+    from .c12 import F1, FW, MEM
+    bg = {'shortest_path': FW, 'memory': MEM}.get(kind, F1)
+
+    def h(sx):
+        state, world = lazy_state(sx, H, W, bg, held_sigma=[])
+        if kind == 'memory':
+            cells = [world.make(y, x) for y in range(H) for x in range(W)]
+            sx.assume(any(isinstance(c, Beacon) for c in cells))
+        else:
+            ey = int(sx.int('ey', 0, H - 1))
+            ex = int(sx.int('ex', 0, W - 1))
+            world.fixed[(ey, ex)] = Exit
+        a = sx.choice('a', [Action.MOVE_FORWARD, Action.MOVE_LEFT, Action.TURN_RIGHT])
+        pose0 = (state.agent.position.y, state.agent.position.x, state.agent.orientation)
+        nxt = transition_with_copy(transition('chain[move,turn]'), state, a)
+        f = {'manhattan': partial(RF.getting_closer, object_type=Exit), 'euclidean': partial(RF.getting_closer, object_type=Exit, distance_function=Position.euclidean_distance),
+             'proportional': partial(RF.proportional_to_distance, object_type=Exit), 'shortest_path': partial(RF.getting_closer_shortest_path, object_type=Exit),
+             'memory': RF.reach_exit_memory}[kind]
+        before = {k: repr(o) for k, o in post_cells(nxt).items()}
+        nw = list(getattr(nxt.grid.objects, 'writes', []))
+        r1 = f(state, a, nxt)
+        r2 = f(state, a, nxt)
+        sx.cover('scanning-' + kind)
+        input_untouched(sx, state, world, pose0, kind + '-state')
+        sx.check(getattr(nxt.grid.objects, 'writes', []) == nw and all(repr(post_cells(nxt)[k]) == v for k, v in before.items()), kind + '-next-state-untouched')
+        sx.check(r1 == r2, kind + '-same-answer-twice')
     return h
 
 
@@ -290,6 +330,9 @@ def obligations(tier):
             obs.append(Obligation(f'termination-{tn}-{H}x{W}', mk_reward(tn, t, H, W, small, True), dict(component=tn, H=H, W=W)))
     for (H, W) in ([(1, 1), (1, 2), (2, 2)] if q else [(1, 1), (1, 2), (2, 2), (2, 3)]):
         obs.append(Obligation(f'copy-{H}x{W}', mk_copy(H, W), dict(H=H, W=W, alphabet=[e[0] for e in COPY9])))
+    for kind in ('manhattan', 'euclidean', 'proportional', 'shortest_path', 'memory'):
+        for (H, W) in ([(2, 2)] if q else [(2, 2), (2, 3)]):
+            obs.append(Obligation(f'scanning-reward-{kind}-{H}x{W}', mk_scanning_reward(kind, H, W), dict(component=kind, H=H, W=W)))
     obs.append(Obligation('history-dijkstra', h_history_dijkstra))
     obs.append(Obligation('history-rays', h_history_rays))
     return obs
